@@ -343,6 +343,15 @@ pub fn rows_c09(args: &[String]) -> i32 {
     for v in [&b"#0"[..], b"\n", b"\"", b";,", b"\xff\x00"] {
         blk_row(v, &mut out);
     }
+    // text (&str) is sent as a block of its UTF-8 bytes: multi-byte characters of every width
+    for v in ["10 \u{b5}V", "\u{e9}", "caf\u{e9}", "\u{65e5}\u{672c}\u{8a9e}", "a\u{1f600}b", "\u{b5}\u{b5}\u{b5}\u{b5}\u{b5}\u{b5}\u{b5}\u{b5}\u{b5}\u{b5}", "\u{7f}\u{80}"] {
+        blk_row(v.as_bytes(), &mut out);
+    }
+    for _ in 0..(if thorough { 300 } else { 30 }) {
+        let n = rng.below(12) as usize;
+        let s: String = (0..n).map(|_| *rng.pick(&['a', ';', '\u{b5}', '\u{e9}', '\u{20ac}', '\u{1f600}', '"', '\n'])).collect();
+        blk_row(s.as_bytes(), &mut out);
+    }
     // character and expression data
     for v in [&b"ABC"[..], b"A", b"ON", b"A_1", b"ABCDEFGHIJKL", b"T800"] {
         let text = fmt(&Character(v)).unwrap_or_default();
